@@ -19,6 +19,9 @@ pub struct WalkStats {
     pub restarts: u64,
     pub restarts_refused: u64,
     pub accounting_observations: u64,
+    /// C06 along the walk: a call that returned an error changed state, readable entries or cache counters
+    pub refused_calls_compared: u64,
+    pub trace_left: Option<Viol>,
     pub kinds: std::collections::BTreeMap<String, u64>,
 }
 
@@ -97,7 +100,7 @@ pub fn walk_legal(seed: u64) -> (WalkStats, Option<Viol>, Option<Viol>, Option<V
 
 fn walk_x(seed: u64, legal: bool) -> (WalkStats, Option<Viol>, Option<Viol>, Option<Viol>) {
     let mut r = Rng::new(seed);
-    let mut stats = WalkStats { calls: 0, update_states: 0, reappended_resident_ids: 0, restarts: 0, restarts_refused: 0, accounting_observations: 0, kinds: Default::default() };
+    let mut stats = WalkStats { calls: 0, update_states: 0, reappended_resident_ids: 0, restarts: 0, restarts_refused: 0, accounting_observations: 0, refused_calls_compared: 0, trace_left: None, kinds: Default::default() };
     let dir = util::fresh_dir("c16w");
     let cfg = CfgSpec {
         max_records: Some(*r.pick(&[2usize, 3, 5, 8, 1000])),
@@ -131,6 +134,12 @@ fn walk_x(seed: u64, legal: bool) -> (WalkStats, Option<Viol>, Option<Viol>, Opt
     for step in 0..n_steps {
         let s = st.state();
         let k = r.below(100);
+        // what a refused call must leave untouched (C06): state, readable entries, cache counters
+        let snap_before = {
+            let rl = st.rl();
+            let stt = rl.stat();
+            (s.clone(), st.read_all(), stt.payload_cache_item_count, stt.payload_cache_size)
+        };
         // ids of the entries that are live right now (legal mode names only these)
         let live: Vec<(u64, u64)> = if legal {
             match st.read_all() {
@@ -316,6 +325,39 @@ fn walk_x(seed: u64, legal: bool) -> (WalkStats, Option<Viol>, Option<Viol>, Opt
         };
         stats.calls += 1;
         *stats.kinds.entry(name.to_string()).or_insert(0) += 1;
+        if matches!(out, Outcome::Err(_)) && matches!(name, "append" | "truncate" | "purge" | "commit" | "vote" | "update_state") && st.rl.is_some() && stats.trace_left.is_none() {
+            // (a batch append applies the entries before the refused one: compared only for single-entry calls)
+            let single = name != "append" || log.last().map(|l| !l.contains("B,(")).unwrap_or(true);
+            if single {
+                if let Outcome2::Ok(be) = &snap_before.1 {
+                    let rl = st.rl();
+                    let stt = rl.stat();
+                    let after = (st.state(), st.read_all(), stt.payload_cache_item_count, stt.payload_cache_size);
+                    stats.refused_calls_compared += 1;
+                    let diff = if after.0 != snap_before.0 {
+                        Some(format!("state {:?} -> {:?}", snap_before.0, after.0))
+                    } else if let Outcome2::Ok(ae) = &after.1 {
+                        if ae != be {
+                            Some(format!("read(0,MAX): {} entries before, {} after: {}", be.len(), ae.len(), crate::props::seq::diff_entries(ae, be)))
+                        } else if (after.2, after.3) != (snap_before.2, snap_before.3) {
+                            Some(format!("cache items/bytes {}/{} -> {}/{}", snap_before.2, snap_before.3, after.2, after.3))
+                        } else {
+                            None
+                        }
+                    } else {
+                        Some("read(0,MAX) worked before the refused call and fails after it".to_string())
+                    };
+                    if let Some(d) = diff {
+                        stats.trace_left = Some(Viol {
+                            prop: "C06".into(),
+                            sig: format!("C06:walk:trace_left:{}", name),
+                            text: format!("{} returned an error ({}) and yet: {} ; calls so far: {}", name, out.brief(), d, log.iter().rev().take(12).rev().cloned().collect::<Vec<_>>().join(" ; ")),
+                            replay: json!({"kind": "c06w", "seed": seed.to_string(), "legal": legal}),
+                        });
+                    }
+                }
+            }
+        }
         if let Outcome::Panic(p) = out {
             viol = Some((name.to_string(), p));
             break;
@@ -371,6 +413,11 @@ fn walk_x(seed: u64, legal: bool) -> (WalkStats, Option<Viol>, Option<Viol>, Opt
         replay: json!({"kind": "c02w", "seed": seed.to_string(), "cfg": cfg.to_json(), "calls": log}),
     });
     (stats, v, a, c2)
+}
+
+pub fn replay06(v: &serde_json::Value) -> Option<Viol> {
+    let seed: u64 = v["seed"].as_str()?.parse().ok()?;
+    walk_x(seed, v["legal"].as_bool().unwrap_or(false)).0.trace_left
 }
 
 pub fn replay02(v: &serde_json::Value) -> Option<Viol> {
